@@ -154,10 +154,15 @@ Sol2 ==
         qus \in {<<"g", IF IsEnzyme(sols[2]) THEN "U" ELSE "mol">>}, tu \in {"L", "g"},
         skew \in {One, R(3, 2), R(1, 2)}}
     : solvent \in SolSolvents(sols) \ {"D", "z"}} : sols \in {<<"N", "D">>, <<"N", "E">>, <<"N", "M">>}}
+\* three solutes
+Sol3 == {SCk(<<"N", "D", "M">>, solvent, <<One, R(1, 2), One>>, xsolv, given, nus, dus, <<"g", "mol", "g">>, tu, skew) :
+           solvent \in {"W"}, xsolv \in {I(8), I(-1)}, given \in {"cq", "ct", "qt"},
+           nus \in {<<"mol", "mol", "mol">>, <<"g", "L", "mol">>}, dus \in {<<"L", "L", "L">>, <<"g", "L", "mol">>},
+           tu \in {"L", "g"}, skew \in {One, R(3, 2)}}
 \* a solvent container that already holds the solute: only quantity + total (the quantity is what is added)
 SolStock == {SC(<<"N">>, "vs", <<x>>, I(3), "qt", <<"g">>, <<"g">>, <<qu>>, tu) : x \in {One, R(1, 2)}, qu \in QtyUnits("N"), tu \in DenUnits}
-SOL_CasesQuick == Sol1(TRUE) \cup {c \in Sol2 : c.tu = "L"} \cup SolStock
-SOL_Cases == Sol1(FALSE) \cup Sol2 \cup SolStock
+SOL_CasesQuick == Sol1(TRUE) \cup {c \in Sol2 : c.tu = "L"} \cup SolStock \cup {c \in Sol3 : c.tu = "L"}
+SOL_Cases == Sol1(FALSE) \cup Sol2 \cup SolStock \cup Sol3
 FR(src, solute, solvent, fx, y, nu, du, tu) ==
   [src |-> src, n |-> "o", solute |-> solute, solvent |-> solvent, fx |-> fx, y |-> y, nu |-> nu, du |-> du, tu |-> tu]
 SOL_From(quick) ==
